@@ -84,7 +84,8 @@ VocabClauses(r) ==
 CfClauses(r) ==
   IF r.res # "ok" THEN {"cf_raises"} ELSE
   LET m == r.m  q == r.lists[m] IN
-  Flag(Len(q) = m * m /\ SeqRange(q) = Grid(m), "cf_not_permutation_of_grid")
+  \* every list of the record is a fresh observation: a smaller one that is empty / short is not "a prefix"
+  Flag(Len(q) = m * m /\ SeqRange(q) = Grid(m) /\ \A k \in 1..(m - 1) : Len(r.lists[k]) = k * k, "cf_not_permutation_of_grid")
   \cup Flag(q = CornerFirst(m), "cf_differs_from_corner_first_order")
   \cup Flag(\A k \in 1..(m - 1) : PrefixOf(r.lists[k], q), "cf_prefix_broken")
 
@@ -121,7 +122,8 @@ LegacyClauses(r) ==
 
 LegacyPrefixClauses(r) ==
   IF r.res # "ok" THEN {"legacy_vocabulary_raises"} ELSE
-  Flag(\A k \in 1..(r.m - 1) : PrefixOf(r.arrs[k], r.arrs[r.m]), "legacy_prefix_broken")
+  \* (the vocabulary of size k has more than k tokens: an empty / short list is not accepted as "a prefix")
+  Flag(\A k \in 1..(r.m - 1) : Len(r.arrs[k]) > k /\ PrefixOf(r.arrs[k], r.arrs[r.m]), "legacy_prefix_broken")
 
 EncClauses(r) ==
   LET unknown == \E k \in 1..Len(r.toks) : r.toks[k] \notin SpecSet IN
